@@ -4,10 +4,21 @@
 (* tpValuesIds) seen through its observable state machine, plus the        *)
 (* length arithmetic of the cookie codec (encode_seq / decode_seq).        *)
 (*                                                                         *)
-(* A tree (cases.json) is [n |-> number of nodes, parent |-> <<...>>]:     *)
-(* nodes are 1..n in depth-first (document) order, node 1 is the root,     *)
-(* parent[i] < i.  The state between two requests is the set `exp` of      *)
-(* expanded nodes (it lives in the tree-s cookie).                         *)
+(* A case (cases.json) is [n, parent, opt]: nodes are 1..n in depth-first  *)
+(* (document) order, node 1 is the root, parent[i] < i.  opt holds the     *)
+(* options of the tag that change what is shown:                           *)
+(*   ac      assume_children: children are not computed for a collapsed    *)
+(*           node, so every collapsed node carries an expand link          *)
+(*   leaves  leaves=doc: a node without children can be expanded and then  *)
+(*           shows the leaves document                                     *)
+(*   hf      header=doc footer=doc around the children of an expanded node *)
+(*   single  the state is not kept in a cookie: a request shows only the   *)
+(*           path of the clicked node                                      *)
+(*   rev     reverse                                                       *)
+(*   rank    sort=attribute: rank[x] is the sort key of node x (document   *)
+(*           order when the option is absent)                              *)
+(* The state between two requests is the set `exp` of expanded nodes (it   *)
+(* lives in the tree-s cookie).                                            *)
 (*   Click(x)     the reader follows the one link node x carries           *)
 (*   ExpandAll / CollapseAll     the request variables of the same name    *)
 (*   Reload       the same cookie again                                    *)
@@ -23,34 +34,66 @@ VARIABLES tid, exp, last
 vars == <<tid, exp, last>>
 
 T == Cases[tid]
+Opt == T.opt
 Nodes == 1..T.n
 Children(x) == {y \in Nodes : y > 1 /\ T.parent[y] = x}
 HasKids(x) == Children(x) # {}
 RECURSIVE Anc(_)
 Anc(x) == IF x = 1 THEN {} ELSE {T.parent[x]} \cup Anc(T.parent[x])
 Desc(x) == {y \in Nodes : x \in Anc(y)}
+Path(x) == Anc(x) \ {1}
+
+\* the children of x in the order they are shown: by sort key, then reversed
+KidSeq(x) ==
+    LET c == Children(x)
+        asc == [j \in 1..Cardinality(c) |-> CHOOSE y \in c : Cardinality({z \in c : Opt.rank[z] < Opt.rank[y]}) = j - 1]
+    IN IF Opt.rev THEN [j \in 1..Len(asc) |-> asc[Len(asc) + 1 - j]] ELSE asc
 
 \* a node is shown iff all its proper ancestors other than the root are expanded
-Visible(e, x) == x # 1 /\ (Anc(x) \ {1}) \subseteq e
-\* rows in depth-first order = visible nodes in document order
-Rows(e) == LET vis == {x \in Nodes : Visible(e, x)} IN
-           [j \in 1..Cardinality(vis) |-> CHOOSE x \in vis : Cardinality({y \in vis : y < x}) = j - 1]
-\* exactly one link per visible node that has children; it collapses iff the node is expanded
-Links(e) == {<<x, IF x \in e THEN "c" ELSE "e">> : x \in {y \in Nodes : Visible(e, y) /\ HasKids(y)}}
+Visible(e, x) == x # 1 /\ Path(x) \subseteq e
+
+\* a shown node carries a link iff the tag believes it may have something below it
+Linkable(e, x) == HasKids(x) \/ Opt.leaves \/ (Opt.ac /\ x \notin e)
+
+\* what is rendered, in order: <<"row", x>> the body for node x, <<"head", x>> / <<"foot", x>> the header and footer
+\* documents around what is below an expanded x, <<"leaf", x>> the leaves document of an expanded childless x
+RECURSIVE Below(_, _), Each(_, _, _)
+Below(x, e) ==
+    (IF Opt.hf THEN <<<<"head", x>>>> ELSE <<>>)
+    \o (IF HasKids(x) THEN Each(KidSeq(x), 1, e) ELSE IF Opt.leaves THEN <<<<"leaf", x>>>> ELSE <<>>)
+    \o (IF Opt.hf THEN <<<<"foot", x>>>> ELSE <<>>)
+Each(s, j, e) ==
+    IF j > Len(s) THEN <<>>
+    ELSE <<<<"row", s[j]>>>> \o (IF s[j] \in e THEN Below(s[j], e) ELSE <<>>) \o Each(s, j + 1, e)
+
+Rows(e) == IF HasKids(1) \/ Opt.leaves THEN Below(1, e) ELSE <<>>
+RowNodes(e) == {Rows(e)[j][2] : j \in {i \in 1..Len(Rows(e)) : Rows(e)[i][1] = "row"}}
+
+\* exactly one link per shown linkable node; it collapses iff the node is expanded
+Links(e) == {<<x, IF x \in e THEN "c" ELSE "e">> : x \in {y \in Nodes : Visible(e, y) /\ Linkable(e, y)}}
 
 Init == /\ tid \in 1..Len(Cases) /\ exp = {} /\ last = <<"init", 0, {}>>
 
+ClickEff(x) ==
+    IF Opt.single
+    THEN \* no cookie: only the clicked path is known to the next request
+         exp' = IF x \in exp THEN Path(x) ELSE Path(x) \cup {x}
+    ELSE exp' = IF x \in exp THEN exp \ ({x} \cup Desc(x))         \* collapsing forgets the descendants
+                ELSE exp \cup {x}
+
 Click(x) ==
-    /\ Visible(exp, x) /\ HasKids(x)
-    /\ exp' = IF x \in exp THEN exp \ ({x} \cup Desc(x))         \* collapsing forgets the descendants
-              ELSE exp \cup {x}
+    /\ Visible(exp, x) /\ Linkable(exp, x)
+    /\ ClickEff(x)
     /\ last' = <<"click", x, exp>>
     /\ UNCHANGED tid
 
-ExpandAll   == /\ exp' = {x \in Nodes : x # 1 /\ HasKids(x)}
-               /\ last' = <<"expand_all", 0, exp>> /\ UNCHANGED tid
-CollapseAll == /\ exp' = {} /\ last' = <<"collapse_all", 0, exp>> /\ UNCHANGED tid
-Reload      == /\ last[1] # "reload" /\ UNCHANGED <<tid, exp>> /\ last' = <<"reload", 0, exp>>
+ExpandAllEff   == exp' = {x \in Nodes : x # 1 /\ HasKids(x)}
+CollapseAllEff == exp' = {}
+ReloadEff      == exp' = IF Opt.single THEN {} ELSE exp
+
+ExpandAll   == ExpandAllEff /\ last' = <<"expand_all", 0, exp>> /\ UNCHANGED tid
+CollapseAll == CollapseAllEff /\ last' = <<"collapse_all", 0, exp>> /\ UNCHANGED tid
+Reload      == last[1] # "reload" /\ ReloadEff /\ UNCHANGED tid /\ last' = <<"reload", 0, exp>>
 
 Next == (\E x \in Nodes : Click(x)) \/ ExpandAll \/ CollapseAll \/ Reload
 
@@ -59,15 +102,17 @@ Spec == Init /\ [][Next]_vars
 ---------------------------------------------------------------------------
 (* C20 *)
 
-\* the expansion state is closed under ancestors (below the root) and holds only nodes with children
-Closed == \A x \in exp : HasKids(x) /\ x # 1 /\ (Anc(x) \ {1}) \subseteq exp
+\* the expansion state is closed under ancestors (below the root) and holds only nodes that could be expanded
+Closed == \A x \in exp : x # 1 /\ Path(x) \subseteq exp /\ (HasKids(x) \/ Opt.ac \/ Opt.leaves)
 \* rows = the root's children plus, recursively, the children of every expanded node
-RowsAreChildrenOfExpanded ==
-    {Rows(exp)[j] : j \in 1..Len(Rows(exp))} = Children(1) \cup UNION {Children(x) : x \in exp}
+RowsAreChildrenOfExpanded == RowNodes(exp) = Children(1) \cup UNION {Children(x) : x \in exp}
+\* ... each exactly once, every child directly after what is shown for its elder sibling (depth-first order)
+RowsOnce == \A i, j \in 1..Len(Rows(exp)) : (i # j /\ Rows(exp)[i][1] = "row" /\ Rows(exp)[j][1] = "row")
+                                             => Rows(exp)[i][2] # Rows(exp)[j][2]
 \* each node with children carries exactly one link
 OneLinkEach == \A x \in Nodes : (Visible(exp, x) /\ HasKids(x)) => Cardinality({l \in Links(exp) : l[1] = x}) = 1
-\* a click toggles precisely that node; collapsing forgets the descendants
-ToggleOnly == [][\A x \in Nodes : (last'[1] = "click" /\ last'[2] = x) =>
+\* a click toggles precisely that node; collapsing forgets the descendants (the cookie keeps everything else)
+ToggleOnly == [][\A x \in Nodes : (last'[1] = "click" /\ last'[2] = x /\ ~Opt.single) =>
                    /\ (x \in exp) # (x \in exp')
                    /\ \A y \in Nodes \ ({x} \cup Desc(x)) : (y \in exp) = (y \in exp')
                    /\ (x \in exp => exp' \cap Desc(x) = {})]_vars
